@@ -131,3 +131,53 @@ def wlit(rep, v):
         return '((i64)%dLL)' % v
     assert 0 <= v < (1 << 64), v
     return '((u64)%dULL)' % v
+
+
+ALL_REPS = INT_REPS + ['f32', 'f64']
+
+
+def is_fp(r):
+    return r in FP
+
+
+def promoted(r):
+    return REPS[r]['P'] if r in REPS else r
+
+
+def common(a, b):
+    """std::common_type_t<a, b> on x86-64 LP64 for the 8 fixed-width integer types, float and double"""
+    if a == b: return a
+    if is_fp(a) or is_fp(b):
+        if 'f64' in (a, b): return 'f64'
+        return 'f32'
+    pa, pb = promoted(a), promoted(b)
+    if pa == pb: return pa
+    ia, ib = REPS[pa], REPS[pb]
+    if ia['signed'] == ib['signed']:
+        return pa if ia['bits'] >= ib['bits'] else pb
+    u, s = (pa, pb) if not ia['signed'] else (pb, pa)
+    if REPS[u]['bits'] >= REPS[s]['bits']: return u
+    return s   # signed type is strictly wider: represents every value of the unsigned one
+
+
+def W_for(*reps):
+    """exact type for products of values of these (integral) reps with constants below 2^64"""
+    if all(REPS[r]['bits'] <= 32 for r in reps):
+        if any(r == 'u32' for r in reps) and not any(REPS[r]['signed'] for r in reps): return 'u64'
+        if not any(r == 'u32' for r in reps): return 'i64'
+    if not any(REPS[r]['signed'] for r in reps): return 'u128'
+    return 'i128'
+
+
+def lit_w(w, v):
+    if w == 'i64':
+        assert -(1 << 63) < v < (1 << 63), v
+        return '((i64)%dLL)' % v
+    if w == 'u64':
+        assert 0 <= v < (1 << 64), v
+        return '((u64)%dULL)' % v
+    if w == 'u128':
+        assert 0 <= v < (1 << 128), v
+        return 'U128(0x%xULL, 0x%xULL)' % (v >> 64, v & ((1 << 64) - 1))
+    assert -(1 << 127) <= v < (1 << 127), v
+    return lit(v)
